@@ -1337,6 +1337,35 @@ fn kernel_line(t: &[&str]) -> String {
       hoisted.dedup();
       format!("hoisted {}", if hoisted.is_empty() { "-".to_string() } else { hoisted.join(",") })
     }
+    "ivuse" if t.len() == 3 => {
+      // IV-elimination candidate whose only other mention of the counter `i` is at POS inside a nested loop
+      let (pos, b) = (t[1], t[2]);
+      let kinit = if pos == "init" { "i" } else { "0" };
+      let ibound = if pos == "guard" { "i" } else { b };
+      let addend = if pos == "body" { "i" } else { "k" };
+      let extra_lv = if pos == "loopvalue" { " w 0 i" } else { "" };
+      let nlv = if pos == "loopvalue" { 3 } else { 2 };
+      let print = if pos == "print" { "call print 1 i _ " } else { "" };
+      // the extra inner variable must be live (DCE inside the loop analysis drops unused loop variables)
+      let brk = if pos == "loopvalue" { "w" } else { "s" };
+      let text = format!(
+        "fn f0 2 while 3 i 0 ni last 0 j acc 0 nacc {{ bin cc ge i 5 sif cc 0 {{ brk acc }} {print}while {nlv} k {kinit} nk s 0 ns{extra_lv} {{ bin c2 ge k {ibound} sif c2 0 {{ brk {brk} }} bin ns add s {addend} bin nk add k 1 }} r2 bin t add acc last bin nacc add t r2 bin j mul i 3 bin ni add i 1 }} r ret r end"
+      );
+      let mut heap = Heap::new();
+      let before = match parse_program(&mut heap, &text) {
+        Ok(f) => f,
+        Err(e) => return format!("bad-program {e}"),
+      };
+      let after = match apply_pass(&mut heap, &before, "loop", 31) {
+        Ok(f) => f,
+        Err(_) => return "panic".to_string(),
+      };
+      let kept = after[0].body.iter().any(|s| match s {
+        Statement::While { loop_variables, .. } => loop_variables.iter().any(|v| v.name.as_str(&heap) == "i"),
+        _ => false,
+      });
+      if kept { "kept".to_string() } else { "elim".to_string() }
+    }
     "lvnw" => {
       // `lvnw <prefix> ~ N (name init loopvalue)*N | <body>` through the real local_value_numbering
       let mut heap = Heap::new();
